@@ -101,6 +101,11 @@ def post (q : Chan) (r : Req) : Chan × Bool :=
   | some q' => (q', true)
   | none => (q, false)
 
+/-- `nodePrivilegedService.SendObservationRequest` (`node/cmd/guardiand/adminserver.go`): the admin RPC hands the request
+of its caller to `PostObservationRequest` on the outbound queue and returns its error (`false`) or an empty response
+(`true`); the caller's context is not consulted — there is no waiting outcome. -/
+def adminSend (q : Chan) (r : Req) : Chan × Bool := post q r
+
 structure State where
   cache : Cache := []
   chans : List (Nat × Chan) := []     -- `chainObsvReqC`, keyed by the 16-bit chain id
@@ -119,6 +124,7 @@ inductive Op where
   | drain (ch n : Nat)          -- a watcher takes up to `n` requests from its queue
   | setchan (ch cap : Nat)      -- a (new, empty) watcher queue for `ch`
   | delchan (ch : Nat)
+  | advance (now : Nat)         -- the clock moves on (no ticker event, no request): the loop stays parked in its `select`
 deriving Repr
 
 def step (w : Nat) (s : State) : Op → State × Option Outcome
@@ -137,9 +143,26 @@ def step (w : Nat) (s : State) : Op → State × Option Outcome
     | none => (s, none)
   | .setchan ch cap => ({ s with chans := setChan s.chans ch { cap := cap, items := [] } }, none)
   | .delchan ch => ({ s with chans := s.chans.filter (fun e => e.1 != ch) }, none)
+  | .advance _ => (s, none)     -- the loop has no timer besides the purge ticker: time alone does nothing
 
 def runOps (w : Nat) (s : State) : List Op → State
   | [] => s
   | o :: os => runOps w (step w s o).1 os
+
+/-- The request an operation put on a watcher queue, if any (only a `req` whose outcome is `forwarded` does). -/
+def fwdOf (w : Nat) (s : State) : Op → List Req
+  | .req now r =>
+    match (step w s (.req now r)).2 with
+    | some (.forwarded _) => [r]
+    | _ => []
+  | _ => []
+
+/-- Everything the dispatcher forwarded along an operation sequence, in order. -/
+def forwards (w : Nat) (s : State) : List Op → List Req
+  | [] => []
+  | o :: os => fwdOf w s o ++ forwards w (step w s o).1 os
+
+/-- `r` sits in some watcher queue. -/
+def InQueues (s : State) (r : Req) : Prop := ∃ e ∈ s.chans, r ∈ e.2.items
 
 end Whv.Reobserve
